@@ -84,7 +84,7 @@ def run(ctx):
         if len(f) >= 2:
             model[f[0]] = f[1:]
 
-    n_diff = n_clean = n_cert = n_cert_na = n_realwt = n_constraints = n_nodes = n_outside_model = n_corpus_in = n_untyped = n_corpus_rw = 0
+    n_diff = n_clean = n_cert = n_cert_na = n_realwt = n_constraints = n_nodes = n_outside_model = n_corpus_in = n_untyped = n_corpus_rw = n_cat_in = 0
     gclasses, sclasses, node_kinds, ckinds, distinct, samples, cert_other = {}, {}, {}, {}, set(), [], {}
     diffs = []
     for r in cases:
@@ -121,8 +121,9 @@ def run(ctx):
             # the model itself says the body leaves the fragment (a method call on a type-parameter receiver, a dyn expected type)
             n_outside_model += 1
             continue
-        corpus = cid.startswith("K")
-        n_corpus_in += corpus
+        corpus = cid[0] in "KA"   # K: real corpus, A: the C03 call-form catalogue (accepted twins)
+        n_corpus_in += cid.startswith("K")
+        n_cat_in += cid.startswith("A")
         if not m or show(parse(m[0])) != show(ri):
             n_diff += 1
             if len(diffs) < 5:
@@ -172,7 +173,7 @@ def run(ctx):
         src, verdict, expect = vlib.unesc(r[2]), r[3], r[4]
         msgs = r[5] if len(r) > 5 else ""
         payload = {"id": pid, "program": src, "expect": expect, "verdict": verdict, "messages": msgs[:600]}
-        if expect == "corpus":
+        if expect in ("corpus", "catalogue"):
             continue
         if expect == "ok":
             n_ok += 1
@@ -199,6 +200,10 @@ def run(ctx):
             "outside_the_model": gen_cov.get("corpus_functions", 0) - n_corpus_in,
             "outside_by_first_unsupported_node": {k[len("corpus_outside_"):]: v for k, v in sorted(gen_cov.items()) if k.startswith("corpus_outside_")},
             "outside_found_by_the_model(method call on a type-parameter receiver, dyn)": n_outside_model},
+        "C03_CALL_FORM_CATALOGUE(accepted twins of the arity/argtype call forms, incl. overlapping inherent impls)": {
+            "programs": gen_cov.get("catalogue_programs", 0), "functions": gen_cov.get("catalogue_functions", 0),
+            "inside_the_model_and_compared": n_cat_in,
+            "outside_by_first_unsupported_node": {k[len("catalogue_outside_"):]: v for k, v in sorted(gen_cov.items()) if k.startswith("catalogue_outside_")}},
         "accepted_functions_with_a_form_without_declarative_rule(method call, array)": n_untyped,
         "constraints_compared": n_constraints, "constraint_kinds": ckinds, "expression_nodes_with_compared_types": n_nodes,
         "hir_node_kinds(in compared bodies)": {k: node_kinds[k] for k in sorted(node_kinds)},
